@@ -31,6 +31,15 @@ func valBuild(name string, seed uint64) *lib.Build {
 		b.PutFile("big.bin", rb(9*lib.MB+1234))
 		b.PutFile("small.bin", rb(10))
 		b.PutFile("d/aligned.bin", rb(2*lib.BS))
+	case "wide":
+		for i := 0; i < 1100; i++ {
+			b.PutDir(fmt.Sprintf("w%02d/d%04d", i%40, i))
+		}
+		for i := 0; i < 40; i++ {
+			b.PutSymlink(fmt.Sprintf("w%02d/lnk", i), fmt.Sprintf("d%04d", i))
+		}
+		b.PutFile("w00/d0000/f.bin", rb(3000))
+		b.PutFile("w39/g.bin", rb(lib.BS+5))
 	case "nested":
 		b.PutDir("another-hollow")
 		b.PutFile("top.bin", rb(3*lib.BS+100))
